@@ -118,7 +118,14 @@ namespace ratio
                                 if (ai->get_type().get_name() == REAL_KEYWORD)
                                 { // we have a real variable..
                                     const auto val = slv.get_lra_theory().value(ai->l);
-                                    adaptations.at(atm).bounds.emplace(itm, new atom_adaptation::arith_bounds{val, val});
+                                    auto [it, added] = adaptations.at(atm).bounds.emplace(itm, nullptr);
+                                    if (added) // we have to add new bounds..
+                                        it->second = new atom_adaptation::arith_bounds{val, val};
+                                    else
+                                    { // the start of the atom has been delayed: we update the bounds..
+                                        static_cast<atom_adaptation::arith_bounds *>(it->second)->lb = val;
+                                        static_cast<atom_adaptation::arith_bounds *>(it->second)->ub = val;
+                                    }
                                     // we freeze the arithmetic value..
                                     if (!slv.get_lra_theory().set(slv.get_lra_theory().new_var(ai->l), val, adaptations.at(atm).sigma_xi))
                                     { // freezing the arithmetic expression caused a conflict..
